@@ -337,23 +337,40 @@ class C12(ConnProp):
                     break
                 f = parse_rd(ln)
                 by_i.setdefault(int(f['i']), []).append(f)
-            if not bad and not any(op[0] == 13 for op in ops):      # held reads: decided by the model comparison
+            if not bad:
+                # expected = the descriptor lists owed to the requests queued in the connection (held reads, op 13, leave
+                # completed requests queued; their line shows the queue length q)
+                expected = []
                 for i, op in enumerate(ops):
                     for f in by_i.get(i, []):
                         if 'rd' not in f:
                             continue
                         k = 0
-                        if op[0] == 0 and f['sys'] == 1:
+                        if op[0] in (0, 13) and f['sys'] == 1:
                             k = min(op[2], 253)
                         pending += list(range(nxt, nxt + k))
                         nxt += k
-                        got = [files_of(r) for r in f['reqs']]
-                        if got:
-                            want = [pending] + [[]] * (len(got) - 1)
-                            if got != want:
-                                bad = ('all pending descriptors to the first request completed by this read, none to later ones: %r' % want, repr(got))
+                        if op[0] == 13:
+                            mq = re.search(r' q=(\d+)', f['raw'])
+                            newly = (int(mq.group(1)) if mq else len(expected)) - len(expected)
+                            if newly < 0:
+                                bad = ('%d requests queued' % len(expected), 'q=%s' % (mq.group(1) if mq else '?'))
                                 break
+                            got = None
+                        else:
+                            got = [files_of(r) for r in f['reqs']]
+                            newly = len(got) - len(expected)
+                            if newly < 0:
+                                bad = ('the %d queued requests popped' % len(expected), '%d popped' % len(got))
+                                break
+                        if newly > 0:
+                            expected += [pending] + [[]] * (newly - 1)
                             pending = []
+                        if got is not None:
+                            if got != expected:
+                                bad = ('all pending descriptors to the first request completed by the read that brought them, none to other requests: %r' % expected, repr(got))
+                                break
+                            expected = []
                         if f['rd'].startswith('Err(ParseError'):
                             pending = []
                         if f['held'] != len(pending):
